@@ -28,33 +28,104 @@ Definition locate_accepts (s : st) (r c : Z) : bool :=
   && (if act s then rng (top s) (bot s) r else rng 1 (height s) r)
   && rng 1 (width s) c.
 
+Lemma set_col_id s : set_col s (col s) = s.
+Proof. destruct s; reflexivity. Qed.
+
+Lemma wrap_scroll_bottom ok s : bra s = true -> row s = height s -> 1 <= col s <= width s ->
+  wrap_scroll ok s = s.
+Proof.
+  intros Hb Hr Hc. unfold wrap_scroll. rewrite Hb. replace (row s =? height s) with true by lia. cbn [andb].
+  replace (Z.min (width s) (col s)) with (col s) by lia. replace (col s <? 1) with false by lia.
+  apply set_col_id.
+Qed.
+
+Lemma wrap_scroll_stay ok s : bra s && (row s =? height s) = false -> 1 <= col s <= width s ->
+  top s <= row s <= bot s -> wrap_scroll ok s = set_bra s false.
+Proof.
+  intros Hb Hc Hr. unfold wrap_scroll. rewrite Hb.
+  set (s1 := set_bra s false).
+  assert (F : col s1 = col s /\ width s1 = width s /\ row s1 = row s /\ bot s1 = bot s /\ top s1 = top s)
+    by (unfold s1; setters; proj; repeat split; reflexivity).
+  destruct F as (F1 & F2 & F3 & F4 & F5). cbv zeta.
+  rewrite F1, F2, F3, F4, F5.
+  replace (col s >? width s) with false by lia. replace (col s <? 1) with false by lia.
+  rewrite F3, F4, F5.
+  replace (row s >? bot s) with false by lia. replace (row s <? top s) with false by lia. reflexivity.
+Qed.
+
 Lemma set_pos_exact s r c : geom_ok s -> 1 <= c <= width s ->
   (bra s = true /\ r = height s) \/ (r <> height s /\ top s <= r <= bot s) ->
   let s' := set_pos s r c false in
   row s' = r /\ col s' = c /\ cells s' = cells s /\ hist s' = hist s /\ wraps s' = wraps s /\
   ovf s' = (if c <? width s then false else ovf s).
 Proof.
-  intros (G1&G2&G3&G4&G5&G6) Hc Hr. cbv zeta. unfold set_pos, wrap_scroll.
-  destruct (c <? width s) eqn:Ec; setters; proj.
-  - destruct Hr as [[Hb Hr] | [Hne Hr]].
-    + rewrite Hb. replace (r =? height s) with true by lia. cbn [andb]. proj.
-      replace (Z.min (width s) c <? 1) with false by lia. proj.
-      repeat split; auto. lia.
-    + replace (bra s && (r =? height s)) with false by (destruct (bra s); cbn [andb]; lia). proj.
-      replace (c >? width s) with false by lia. replace (c <? 1) with false by lia. proj.
-      replace (r >? bot s) with false by lia. replace (r <? top s) with false by lia. proj.
-      repeat split; auto.
-  - destruct Hr as [[Hb Hr] | [Hne Hr]].
-    + rewrite Hb. replace (r =? height s) with true by lia. cbn [andb]. proj.
-      replace (Z.min (width s) c <? 1) with false by lia. proj.
-      repeat split; auto. lia.
-    + replace (bra s && (r =? height s)) with false by (destruct (bra s); cbn [andb]; lia). proj.
-      replace (c >? width s) with false by lia. replace (c <? 1) with false by lia. proj.
-      replace (r >? bot s) with false by lia. replace (r <? top s) with false by lia. proj.
-      repeat split; auto.
+  intros (G1&G2&G3&G4&G5&G6) Hc Hr. cbv zeta. unfold set_pos.
+  set (s1 := set_rc (if c <? width s then set_ovf s false else s) r c).
+  assert (F : row s1 = r /\ col s1 = c /\ cells s1 = cells s /\ hist s1 = hist s /\ wraps s1 = wraps s /\
+              ovf s1 = (if c <? width s then false else ovf s) /\ bra s1 = bra s /\ width s1 = width s /\
+              height s1 = height s /\ top s1 = top s /\ bot s1 = bot s)
+    by (unfold s1; destruct (c <? width s); setters; proj; repeat split; reflexivity).
+  destruct F as (F1&F2&F3&F4&F5&F6&F7&F8&F9&F10&F11).
+  destruct Hr as [[Hb Hr] | [Hne Hr]].
+  - rewrite wrap_scroll_bottom by (try congruence; lia). repeat split; assumption.
+  - rewrite wrap_scroll_stay.
+    + setters. proj. repeat split; assumption.
+    + rewrite F1, F9. destruct (bra s1); cbn [andb]; lia.
+    + lia.
+    + lia.
 Qed.
 
 Definition odef (o : option Z) (d : Z) : Z := match o with Some z => z | None => d end.
+Definition is_some (o : option Z) : bool := match o with Some _ => true | None => false end.
+
+Definition locate_core (s : st) (r' c' : Z) (explicit : bool) : st :=
+  set_pos (let s1 := if r' =? height s then set_bra s true else s in
+           if explicit then set_ovf s1 false else s1) r' c' false.
+
+Lemma locate_core_spec s r' c' e : INV s -> locate_accepts s r' c' = true ->
+  let s' := locate_core s r' c' e in
+  row s' = r' /\ col s' = c' /\ cells s' = cells s /\
+  ovf s' = (if c' <? width s then false else if e then false else ovf s).
+Proof.
+  intros [[Hg Hgr] [Hr Hc]] Ha. cbv zeta. unfold locate_core. unfold locate_accepts in Ha.
+  destruct ((r' =? height s) && barvis s) eqn:E1; [discriminate|]. cbn [negb andb] in Ha.
+  destruct (if act s then rng (top s) (bot s) r' else rng 1 (height s) r') eqn:E2; [|discriminate].
+  cbn [andb] in Ha.
+  set (s2 := let s1 := if r' =? height s then set_bra s true else s in if e then set_ovf s1 false else s1).
+  assert (Hg2 : geom_ok s2) by (unfold s2; cbv zeta; destruct e; destruct (r' =? height s); exact Hg).
+  assert (Hw2 : width s2 = width s /\ height s2 = height s /\ top s2 = top s /\ bot s2 = bot s /\ cells s2 = cells s
+                /\ ovf s2 = (if e then false else ovf s) /\ bra s2 = (if r' =? height s then true else bra s))
+    by (unfold s2; cbv zeta; destruct e; destruct (r' =? height s); setters; proj; repeat split; reflexivity).
+  destruct Hw2 as (W2 & H2 & T2 & B2 & C2 & O2 & A2).
+  assert (Hpos : (bra s2 = true /\ r' = height s2) \/ (r' <> height s2 /\ top s2 <= r' <= bot s2)).
+  { rewrite H2, T2, B2, A2. destruct (r' =? height s) eqn:E3.
+    - left. split; [reflexivity|lia].
+    - right. split; [lia|]. destruct Hg as (G1&G2&G3&G4&G5&G6). unfold rng in E2.
+      destruct (act s); [lia|]. destruct (G6 eq_refl). lia. }
+  assert (Hc2 : 1 <= c' <= width s2) by (rewrite W2; unfold rng in Ha; lia).
+  destruct (set_pos_exact s2 r' c' Hg2 Hc2 Hpos) as (P1 & P2 & P3 & P4 & P5 & P6).
+  split; [exact P1|]. split; [exact P2|]. split; [congruence|].
+  rewrite P6, W2, O2. reflexivity.
+Qed.
+
+Lemma locate_unfold s r c cur :
+  locate s r c cur =
+    if negb (oint16 r && oint16 c && oint16 cur) then (s, Err 6)
+    else if negb (locate_accepts s (odef r (row s)) (odef c (col s))) then (s, Err 5)
+    else
+      let s' := locate_core s (odef r (row s)) (odef c (col s)) (is_some c) in
+      match cur with
+      | Some v => if rng 0 1 v then (s', Ok tt) else (s', Err 5)
+      | None => (s', Ok tt)
+      end.
+Proof.
+  unfold locate, locate_accepts, locate_core, odef, is_some.
+  destruct (negb (oint16 r && oint16 c && oint16 cur)); [reflexivity|].
+  destruct ((_ =? height s) && barvis s); [reflexivity|]. cbn [negb andb].
+  destruct (if act s then _ else _); [|reflexivity]. cbn [negb andb].
+  destruct (rng 1 (width s) _); [|reflexivity]. cbn [negb].
+  destruct c; reflexivity.
+Qed.
 
 Theorem locate_moves s r c cur : INV s ->
   oint16 r && oint16 c && oint16 cur = true ->
@@ -66,38 +137,20 @@ Theorem locate_moves s r c cur : INV s ->
   snd (locate s r c cur) =
     match cur with Some v => if rng 0 1 v then Ok tt else Err 5 | None => Ok tt end.
 Proof.
-  intros [[Hg Hgr] [Hr Hc]] Hi Ha. cbv zeta. unfold locate. rewrite Hi. cbn [negb].
-  unfold odef in *. set (r' := match r with Some z => z | None => row s end) in *.
-  set (c' := match c with Some z => z | None => col s end) in *.
-  unfold locate_accepts in Ha.
-  destruct ((r' =? height s) && barvis s) eqn:E1; [discriminate|]. cbn [negb andb] in Ha.
-  destruct (if act s then rng (top s) (bot s) r' else rng 1 (height s) r') eqn:E2; [|discriminate].
-  cbn [andb negb] in Ha. rewrite Ha. cbn [negb].
-  set (s1 := if r' =? height s then set_bra s true else s).
-  set (s2 := match c with Some _ => set_ovf s1 false | None => s1 end).
-  assert (Hg2 : geom_ok s2) by (unfold s2, s1; destruct c; destruct (r' =? height s); exact Hg).
-  assert (Hw2 : width s2 = width s /\ height s2 = height s /\ top s2 = top s /\ bot s2 = bot s /\ cells s2 = cells s)
-    by (unfold s2, s1; destruct c; destruct (r' =? height s); setters; proj; auto).
-  destruct Hw2 as (W2 & H2 & T2 & B2 & C2).
-  assert (Hpos : (bra s2 = true /\ r' = height s2) \/ (r' <> height s2 /\ top s2 <= r' <= bot s2)).
-  { rewrite H2, T2, B2. destruct (r' =? height s) eqn:E3.
-    - left. split; [|lia]. unfold s2, s1. rewrite E3. destruct c; setters; proj; reflexivity.
-    - right. split; [lia|]. destruct Hg as (G1&G2&G3&G4&G5&G6). unfold rng in E2.
-      destruct (act s); [lia|]. destruct (G6 eq_refl). lia. }
-  assert (Hc2 : 1 <= c' <= width s2) by (rewrite W2; unfold rng in Ha; lia).
-  destruct (set_pos_exact s2 r' c' Hg2 Hc2 Hpos) as (P1 & P2 & P3 & P4 & P5 & P6).
-  assert (Hres : forall x y, fst (match cur with
-                              | Some v => if rng 0 1 v then (x, Ok tt) else (x, Err 5)
-                              | None => (x, y) end) = x).
-  { intros x y. destruct cur as [v|]; [destruct (rng 0 1 v)|]; reflexivity. }
-  rewrite Hres.
-  split; [exact P1|]. split; [exact P2|]. split; [congruence|].
+  intros HI Hi Ha. cbv zeta. rewrite locate_unfold. rewrite Hi, Ha. cbn [negb]. cbv zeta.
+  destruct (locate_core_spec s (odef r (row s)) (odef c (col s)) (is_some c) HI Ha) as (P1 & P2 & P3 & P4).
+  set (s' := locate_core s (odef r (row s)) (odef c (col s)) (is_some c)) in *.
+  assert (Hf : fst (match cur with
+                    | Some v => if rng 0 1 v then (s', Ok tt) else (s', Err 5)
+                    | None => (s', Ok tt) end) = s')
+    by (destruct cur as [v|]; [destruct (rng 0 1 v)|]; reflexivity).
+  rewrite Hf.
+  split; [exact P1|]. split; [exact P2|]. split; [exact P3|].
   split; [|split].
-  - intros Hne. assert (O2 : ovf s2 = false) by (unfold s2; destruct c; [setters; proj; reflexivity | congruence]).
-    assert (O3 : ovf (set_pos s2 r' c' false) = false) by (rewrite P6, O2; destruct (c' <? width s2); reflexivity).
+  - intros Hne. assert (O3 : ovf s' = false).
+    { rewrite P4. destruct c; [|congruence]. cbn [is_some]. destruct (_ <? _); reflexivity. }
     split; [exact O3|]. unfold csrlin, pos. rewrite O3. cbn [andb]. rewrite andb_false_r. rewrite P1, P2. auto.
-  - intros ->. rewrite P6. unfold s2, s1, c'. rewrite W2.
-    destruct (r' =? height s); setters; proj; reflexivity.
+  - intros ->. rewrite P4. cbn [is_some odef]. reflexivity.
   - destruct cur as [v|]; [destruct (rng 0 1 v)|]; reflexivity.
 Qed.
 
@@ -107,10 +160,8 @@ Theorem locate_rejects s r c cur :
    locate_accepts s (odef r (row s)) (odef c (col s)) = false -> locate s r c cur = (s, Err 5)).
 Proof.
   split.
-  - intros Hi. unfold locate. rewrite Hi. reflexivity.
-  - intros Hi Ha. unfold locate. rewrite Hi. cbn [negb]. unfold locate_accepts, odef in Ha.
-    destruct ((_ =? height s) && barvis s); [reflexivity|]. cbn [negb andb] in Ha.
-    destruct (if act s then _ else _); [|reflexivity]. cbn [andb negb] in Ha. rewrite Ha. reflexivity.
+  - intros Hi. rewrite locate_unfold. rewrite Hi. reflexivity.
+  - intros Hi Ha. rewrite locate_unfold. rewrite Hi, Ha. reflexivity.
 Qed.
 
 (* ---- SCREEN(row, col) *)
@@ -309,4 +360,18 @@ Proof.
   pose proof (write_chars_placement s1 str HI1 Hb Ho Hr N1) as P. cbv zeta in P.
   replace (Z.of_nat (length str) =? 0) with false in P by (destruct str; [congruence | cbn [length]; lia]).
   exact P.
+Qed.
+
+(* helper for the non-vacuity examples: a state whose wrap flag list is all false has no wrap flags *)
+Lemma nth_repeat_false n k : nth n (repeat false k) false = false.
+Proof. revert n; induction k as [|k IH]; intros [|n]; simpl; auto. Qed.
+
+Lemma all_false_nowrap s k : wraps s = repeat false k -> forall r, wraps_at s r = false.
+Proof. intros E r. unfold wraps_at. rewrite E. apply nth_repeat_false. Qed.
+
+Lemma forallb_not_ctrl str : forallb (fun c => negb (is_ctrl c)) str = true ->
+  Forall (fun c => is_ctrl c = false) str.
+Proof.
+  intros H. apply Forall_forall. intros c Hc. rewrite forallb_forall in H. specialize (H c Hc).
+  destruct (is_ctrl c); [discriminate|reflexivity].
 Qed.
